@@ -10,12 +10,13 @@ Definition nthz (l : list Z) (i : nat) : Z := nth i l 0.
 Definition dec_tmo (z : Z) : tmo :=
   if Z.eqb z 0 then TNone else if Z.eqb z 1 then TZero else TFin.
 
-(* cfg = [constructor (0 new, 1 from_config, 2 From<iterator>); max_size; pool timeout] *)
+(* cfg = [constructor (0 new, 1 from_config, 2 From<iterator>); max_size; pool timeout; runtime] *)
 Definition dec_cfg (l : list Z) : cfg :=
   let k := nthz l 0 in
   {| how := if Z.eqb k 0 then CNew else if Z.eqb k 1 then CConfig else CIter;
      max0 := zn (nthz l 1);
-     ptmo := if Z.eqb k 1 then dec_tmo (nthz l 2) else TNone |}.
+     ptmo := if Z.eqb k 1 then dec_tmo (nthz l 2) else TNone;
+     rt := if Z.eqb k 1 then negb (Z.eqb (nthz l 3) 0) else false |}.
 
 (* get modes: 0 get, 1 try_get, 2 timeout_get(None), 3 timeout_get(0), 4 timeout_get(finite) *)
 Definition dec_gsel (a : Z) : gsel :=
@@ -36,6 +37,7 @@ Definition dec_label (l : list Z) : label :=
   if Z.eqb k 0 then Start t (dec_op (nthz l 2) (nthz l 3) (nthz l 4))
   else if Z.eqb k 1 then Step t
   else if Z.eqb k 3 then Cancel t
+  else if Z.eqb k 5 then Fire t
   else Mark t.
 
 Definition run_case_z (x : list Z * list (list Z)) : list Z :=
